@@ -72,6 +72,8 @@ class Run(Engine):
             return rec[0] if crashed else None
         if prop == "C14":
             return rec[0] if (forced and ":S" in res) else None
+        if prop == "C09":
+            return rec[0] if ":0" in sec.get("EXEC", "") else None
         return rec[0]
 
     def histogram(self, prop, rec):
@@ -138,6 +140,7 @@ class Run(Engine):
             "C02": "non-trivial = distinct history with ≥ 1 reported skip and ≥ 1 edit (crash-free histories are judged, others are na)",
             "C10": "non-trivial = distinct history in which a kill actually happened (the crash point was reached)",
             "C14": "non-trivial = distinct history with a forced invocation and ≥ 1 reported skip elsewhere",
+            "C09": "run engine as extra engine of C09: failing tasks with and without write errors of the cache file and kills, all histories of depth 4 on two templates; judged: the results never contradict what ran, a failed task is never skipped later; non-trivial = distinct history in which a command failed",
         }.get(prop, "")
 
 
